@@ -28,6 +28,16 @@ def retag(p):
     return {k: (retag(v) if isinstance(v, dict) else 77) for k, v in p.items()}
 
 
+def leaf_keys(d, prefix=()):
+    out = []
+    for k, v in d.items():
+        if isinstance(v, dict) and v:
+            out += leaf_keys(v, prefix + (k,))
+        else:
+            out.append(prefix + (k,))
+    return out
+
+
 def plain(d):
     """the same dataset definition without pre-set / default options"""
     return {k: v for k, v in d.items() if k not in ("options", "default_options")}
@@ -58,10 +68,17 @@ def cases(rng):
         env = dict(base["env"])
         n = max(env) + 1
         env[n] = dict(env[i], options=P, default_options=D)          # decorated with presets
+        leaves = leaf_keys(overlay(overlay(D, P), P2))
+        if leaves and rng.random() < 0.5:
+            # an effect whose callback reads an option that (possibly only) a pre-set / default layer supplies:
+            # evaluate AND validate must see it through the layers (the plain copy below gets the same effect)
+            fid = max(list(base["ftable"]) + [199]) + 1
+            base = dict(base, ftable={**base["ftable"], fid: ("tag",)})
+            eff = ("pstep", fid, [("option", gen.K(*rng.choice(leaves)), None, None)])
+            env[n] = dict(env[n], effects=list(env[n].get("effects") or []) + [eff])
         env[n + 1] = dict(derived=n, how="with_options", preset=P2)
         env[n + 2] = dict(derived=n, how="with_default_options", preset=P2)
-        env[n + 3] = plain(env[i])
-        env[n + 3] = dict(env[n + 3])                                  # plain copy (own cache)
+        env[n + 3] = dict(plain(env[n]))                               # plain copy (own cache), same body / callback / effects
         P3 = retag(P2)                                                  # same keys as P2, other values
         env[n + 4] = dict(derived=n, how="with_default_options", preset=P3)
         env[n + 5] = dict(derived=n, how="with_options", preset=P3)
@@ -91,6 +108,10 @@ def run(ctx):
         cs, base, pool = cases(rng)
         for c in cs:
             scn = c["scn"]
+            if c["kind"].startswith("wrappers") and c is cs[0]:
+                seqd = [x["o"] for x in cs if x["kind"] == c["kind"]] + [c["o"]]
+                checks += len(seqd)
+                violations.extend(same_dict_object_check(scn, c["lhs"], seqd))
             if "seq" in c:
                 raws = []
                 lines = core.run_impl(dict(scn, ops=[("evaluate", i, False, False, c["o"]) for i, _ in c["seq"]]), raw_out=raws)
@@ -150,6 +171,32 @@ def run(ctx):
     }
 
 
+def same_dict_object_check(scn, idx, dicts):
+    """one long-lived wrapper object, called repeatedly with the SAME caller dictionary object, updated in place
+    between the calls (a parameter sweep): every call must see the dictionary as it is at that call"""
+    _, objs, _, _ = core.run_impl(dict(scn, ops=[]), want_objects=True)
+    po = {}
+    out = []
+    for j, o in enumerate(dicts):
+        po.clear()
+        po.update(core.py_json(o))
+        got = []
+        for meth in ("evaluate", "validate"):
+            try:
+                r = getattr(objs[idx], meth)(po)
+                got.append("ok:" + core.show(core.force(r)) if meth == "evaluate" else "ok:()")
+            except Exception as exc:  # noqa
+                got.append("err")
+        want = [cp.outcome(cp.fresh_eval(scn, idx, o, method=m, disabled=False)) for m in ("evaluate", "validate")]
+        want = [w if w.startswith("ok:") else "err" for w in want]
+        if [core.canon_names(g) for g in got] != want:
+            out.append(dict(desc="a long-lived wrapper called again with the same caller dictionary object, updated in place, does not see "
+                                 "the update", call=j, got=got, want=want, options=repr(o), same_dict_history=repr(dicts[:j + 1]),
+                            lhs_index=idx, finding=None, scenario_repr=cp.dump_scn(scn)))
+            break
+    return out
+
+
 def mutation_check(scn):
     """run the ops while holding deep snapshots of every dictionary handed to labrea"""
     out = []
@@ -193,6 +240,10 @@ def replay(ctx, payload):
     scn = cp.load_scn(payload["scenario_repr"])
     detail = {}
     still = False
+    if "same_dict_history" in payload:
+        dicts = eval(payload["same_dict_history"], {"S": core.S})
+        v = same_dict_object_check(scn, payload["lhs_index"], dicts)
+        return bool(v), dict(violations=[{k: x[k] for k in ("call", "got", "want")} for x in v])
     if "lhs_index" in payload:
         o = eval(payload["options"], {"S": core.S})
         eff = eval(payload["overlaid"], {"S": core.S})
